@@ -31,15 +31,10 @@ MUTATIONS = [
      "                         if i in subset_indices]\n"
      "                    )\n")]),
     # ... and the encoder changes the value lists it is given (they are the source's own lists)
-    ('encoder-writes-missing-strings-back-into-its-input', [(ENC,
-     "    def process_string_uncompressed(self, state, bit_writer, descriptor, nbytes):\n"
-     "        state.decoded_descriptors.append(descriptor)\n"
-     "        value = state.decoded_values[state.idx_value]\n",
-     "    def process_string_uncompressed(self, state, bit_writer, descriptor, nbytes):\n"
-     "        state.decoded_descriptors.append(descriptor)\n"
-     "        value = state.decoded_values[state.idx_value]\n"
-     "        if value is None:\n"
-     "            value = state.decoded_values[state.idx_value] = b'\\xff' * nbytes\n")]),
+    ('encoder-writes-the-missing-pattern-back-into-its-input', [(ENC,
+     "        else:\n            value = NUMERIC_MISSING_VALUES[nbits]\n        bit_writer.write_uint(value, nbits)\n",
+     "        else:\n            value = NUMERIC_MISSING_VALUES[nbits]\n            state.decoded_values[state.idx_value - 1] = value\n"
+     "        bit_writer.write_uint(value, nbits)\n")]),
     ('encoder-reverses-the-list-of-value-lists-after-writing', [(ENC,
      "        section_parameter.value = TemplateData(bufr_template,\n",
      "        if not bufr_message.is_compressed.value:\n"
